@@ -176,7 +176,10 @@ pub fn as_position(index: usize, text: &str) -> Position {
         if i == index {
             break;
         }
-        if c == '\n' {
+        if c == '\r' && text[i..].starts_with("\r\n") {
+            // belongs to the following line feed
+        } else if c == '\n' || c == '\r' {
+            // LSP line ends are `\n`, `\r\n` and `\r`
             line += 1;
             character = 0;
         } else {
@@ -215,13 +218,16 @@ pub fn get_insertion_index(position: &Position, text: &str) -> usize {
         if (line, character) == pos {
             return i;
         }
-        if c == '\n' {
+        if c == '\n' || c == '\r' {
             if line == position.line {
                 // a column behind the end of a line means the end of that line
                 return i;
             }
-            line += 1;
-            character = 0;
+            // LSP line ends are `\n`, `\r\n` and `\r`
+            if c == '\n' || !text[i..].starts_with("\r\n") {
+                line += 1;
+                character = 0;
+            }
         } else {
             // LSP columns count UTF-16 code units
             character += c.len_utf16() as u32;
